@@ -453,7 +453,14 @@ func eScenario(r *rand.Rand) ([]database.Command, string, eOpts) {
 		o.AllPlatforms = true
 		return cmds, []string{"comprss", "archve", "cmprs arch"}[r.Intn(3)], o
 	default:
-		// several query words shared with entries that tie exactly (same text up to characters that do not tokenize)
+		return eSharedTieScenario(r)
+	}
+}
+
+// several query words shared with entries that tie exactly (same text up to characters that do not tokenize)
+func eSharedTieScenario(r *rand.Rand) ([]database.Command, string, eOpts) {
+	o := eOpts{}
+	{
 		words := []string{}
 		for len(words) < 4+r.Intn(4) {
 			words = append(words, ePlain[r.Intn(len(ePlain)-4)])
